@@ -144,6 +144,19 @@ func (n *Net) WaitLastServerDone(timeout time.Duration) bool {
 	return n.WaitServerDone(n.Streams(), timeout)
 }
 
+// WaitAllServerDone waits until the host handlers of all streams dialed so far have closed their
+// side (or the timeout passes); for drivers that run several renters concurrently.
+func (n *Net) WaitAllServerDone(timeout time.Duration) bool {
+	deadline := time.Now().Add(timeout)
+	for no := 1; no <= n.Streams(); no++ {
+		left := time.Until(deadline)
+		if left <= 0 || !n.WaitServerDone(no, left) {
+			return false
+		}
+	}
+	return true
+}
+
 // WaitProxies waits until all proxy goroutines have returned.
 func (n *Net) WaitProxies() { n.wg.Wait() }
 
